@@ -22,6 +22,7 @@ import math
 import numpy as np
 
 import builders_confocal as bc
+import c19_alias as al
 import common
 from common import errname
 
@@ -36,6 +37,9 @@ THEOREMS = [
     "Verif.C19.num_frames_idempotent",
     "Verif.C19.F5_witness",
     "Verif.C19.purity_after_repair_partial",
+    "Verif.C19.alias_refines",
+    "Verif.C19.alias_inv",
+    "Verif.C19.alias_writes_invisible",
 ]
 
 RULE = (
@@ -240,6 +244,9 @@ def cf_make(spec, start=None, stop=None):
     o.start = int(spec["start"] if start is None else start)
     o.stop = int(spec["stop"] if stop is None else stop)
     return o
+
+
+al._MAKE, al._QUIET = cf_make, bc.quiet
 
 
 def cf_static(o, kind):
@@ -854,6 +861,8 @@ def run_twin(case, n):
 
 
 def impl(case):
+    if al.is_alias(case):
+        return al.impl(case)
     with bc.quiet():
         try:
             objs = [build(case)]
@@ -966,6 +975,8 @@ def header(case):
 
 
 def ops(case):
+    if al.is_alias(case):
+        return al.ops(case)
     objmeta = [{}]
     toks = []
     for op in case["hist"]:
@@ -1297,6 +1308,8 @@ class Evaluator:
 def agree(case, i, ia, ma):
     if ma == "bad-op":
         return False
+    if al.is_alias(case):
+        return ia == ma  # integers, flags and refusals: exactly
     terms = ma.split("|") if case["hist"] else []
     if len(terms) != len(case["hist"]):
         return False
@@ -1327,6 +1340,8 @@ def mismatches(case):
 
 
 def oracle(case, ia):
+    if al.is_alias(case):
+        return al.oracle(case, ia)
     hist = json.loads(ia[0])
     fresh = json.loads(ia[1])
     for k, (a, b) in enumerate(zip(hist["hist"], fresh)):
@@ -1362,6 +1377,8 @@ def late(case):
 
 
 def tags(case, r):
+    if al.is_alias(case):
+        return {"family": "alias", "confocal": True, "buffer_model": True}
     t = {"family": case["family"], "confocal": is_confocal(case)}
     try:
         hist = json.loads(r["impl"][0])
@@ -1387,11 +1404,16 @@ def tags(case, r):
 
 
 def nontrivial(case, ia):
+    if al.is_alias(case):
+        return al.nontrivial(case, ia)
     h = case["hist"]
     return len(h) >= 2 and any(o[0] == "q" for o in h[1:])
 
 
 def shrink(case):
+    if al.is_alias(case):
+        yield from al.shrink(case)
+        return
     h = case["hist"]
     for i in range(len(h) - 1, -1, -1):
         if h[i][0] == "q":
@@ -2277,6 +2299,23 @@ def cases(tier, rng):
                 else random_history_chain(sub, fam, obj, sub.randint(4, 8), qs=tr.full_colour_queries() + ["static.0"]))
         yield {"stream": "random-rgb", "family": fam, "obj": obj, "hist": hist, "subseed": i, "mode": mode}
 
+    # ---- clause 3 on the buffer model (c19_alias.py): array requests, in-place writes through every handed-out array, views
+    ends_asking = lambda h: h[-1][0] in ("g", "rgb")
+    attacked = lambda h: ends_asking(h) and any(o[0] == "w" for o in h)
+    for P, lines, k in ((3, 2, 2), (2, 1, 1)) if quick else ((3, 2, 2), (2, 1, 1), (4, 3, 1)):
+        obj = kymo_obj(P, lines, k, 1, 2)
+        hs = al.exhaustive(P, lines, 3, ends_asking) + al.exhaustive(P, lines, 4, lambda h: len(h) == 4 and (attacked(h) or not quick and ends_asking(h)))
+        for h in hs:
+            yield {"stream": "alias-small-scope", "family": "alias", "obj": obj, "hist": h}
+    r12 = rng.fork("c19-alias-random")
+    for i in range(400 if quick else 8000):
+        sub = r12.fork(i)
+        P, lines = sub.randint(2, 6), sub.randint(1, 4)
+        obj = kymo_obj(P, lines, sub.randint(1, 3), sub.randint(0, 2), sub.randint(1, 3), salt=sub.randint(0, 99),
+                       early={c: sub.randint(0, 2) for c in bc.COLORS} if sub.chance(0.3) else None)
+        yield {"stream": "alias-random", "family": "alias", "obj": obj, "hist": al.random_hist(sub, P, lines, sub.randint(3, 12)),
+               "subseed": i}
+
 
 def fix_second_ref(o, nd, shift):
     return o
@@ -2286,6 +2325,9 @@ def extra_coverage(results):
     fam, modes, qn, dn, lens, outcomes, lates = {}, {}, {}, {}, {}, {}, 0
     for r in results:
         c = r["case"]
+        if al.is_alias(c):
+            fam["alias"] = fam.get("alias", 0) + 1
+            continue
         fam[c["family"]] = fam.get(c["family"], 0) + 1
         modes[c.get("mode", "fixed")] = modes.get(c.get("mode", "fixed"), 0) + 1
         lens[len(c["hist"])] = lens.get(len(c["hist"]), 0) + 1
@@ -2301,4 +2343,5 @@ def extra_coverage(results):
             pass
     return {"object_kinds": fam, "object_modes": modes, "queries": qn, "derivations": dn, "history_lengths": lens,
             "answer_kinds": outcomes, "cases_with_late_photon_timeline": lates,
-            "private_members_unreachable": dict(sorted(UNREACHED.items()))}
+            "private_members_unreachable": dict(sorted(UNREACHED.items())),
+            "buffer_machine_branches": al.coverage(results)}
